@@ -7,7 +7,8 @@ reg = contracts.load_all()
 I = Interp(reg, 'C01')
 obs = I.verify(reg[sys.argv[1]])
 for ob in obs:
-    ob.lemmas = reg[sys.argv[1]].get('lemmas', [])
+    from pyvc import run as _run
+    ob.lemmas = _run.lemmas_for(reg[sys.argv[1]], ob.name); ob.unfold = _run.unfold_for(reg[sys.argv[1]], ob.name)
     if sys.argv[2] in ob.name:
         text, ax = solve.to_smt2(ob, ob.lemmas)
         open(sys.argv[3],'w').write(text)
